@@ -112,7 +112,10 @@ def run_tapped_case(ctx, kind_, idx):
     if n <= 8:
         info["a"] = a
     npseed = int(rng.integers(0, 2 ** 31 - 1))
-    ain, _k = gen.as_container(rng, a, allow=("array", "list", "readonly", "series", "tuple"))
+    if acls.startswith("int_large"):
+        ain = np.array(a)           # keep the narrow integer dtype: that is the point of the class
+    else:
+        ain, _k = gen.as_container(rng, a, allow=("array", "list", "readonly", "series", "tuple"))
     if via_weaver:
         ain = np.array(a)
     a_before = np.array(a).copy()
